@@ -977,8 +977,40 @@ Proof.
   rewrite IH by lia. reflexivity.
 Qed.
 
-Lemma build_spec v t cm hist dclk drst unused outs pl :
-  build v t cm hist dclk drst unused = (outs, inr pl) ->
+Lemma port_constraints_app a b : port_constraints (a ++ b) = port_constraints a ++ port_constraints b.
+Proof. unfold port_constraints. rewrite map_app, concat_app. reflexivity. Qed.
+Lemma design_constraints_res ps : design_constraints (map DRes ps) = port_constraints ps.
+Proof. unfold design_constraints, port_constraints. rewrite map_map. reflexivity. Qed.
+Lemma design_constraints_app a b : design_constraints (a ++ b) = design_constraints a ++ design_constraints b.
+Proof. unfold design_constraints. rewrite map_app, concat_app. reflexivity. Qed.
+Lemma design_constraints_raws_at raw i : design_constraints (raws_at raw i) = [].
+Proof.
+  induction raw as [|[k w] r IH]; cbn [raws_at]; [reflexivity|]. rewrite design_constraints_app, IH.
+  destruct (Nat.eqb k i); reflexivity.
+Qed.
+Lemma design_constraints_raws_from raw i : design_constraints (raws_from raw i) = [].
+Proof.
+  induction raw as [|[k w] r IH]; cbn [raws_from]; [reflexivity|]. rewrite design_constraints_app, IH.
+  destruct (Nat.leb i k); reflexivity.
+Qed.
+(* raw ports contribute nothing and do not disturb the lines of the requested ports, wherever they sit *)
+Lemma design_constraints_weave v raw : forall ls i,
+  design_constraints (weave v raw i ls) = port_constraints (concat (map (fun l => used_ioports v (lv_port l)) ls)).
+Proof.
+  induction ls as [|l r IH]; intros i; cbn [weave map concat].
+  - apply design_constraints_raws_from.
+  - rewrite !design_constraints_app, design_constraints_raws_at, design_constraints_res, IH.
+    unfold port_constraints. rewrite map_app, concat_app. reflexivity.
+Qed.
+Lemma build_raw_irrelevant v t cm hist dclk drst unused raw :
+  build v t cm hist dclk drst unused raw = build v t cm hist dclk drst unused [].
+Proof.
+  unfold build. destruct (sys_go t cm (sys_reqs dclk drst) (fst (run t cm hist)) []) as [e|[st sv]]; [reflexivity|].
+  rewrite !design_constraints_app, !design_constraints_weave. reflexivity.
+Qed.
+
+Lemma build_spec v t cm hist dclk drst unused raw outs pl :
+  build v t cm hist dclk drst unused raw = (outs, inr pl) ->
   outs = snd (run t cm hist) /\
   exists st outs', run t cm (hist ++ sys_reqs dclk drst) = (st, outs') /\
     subl (map c_pin (pl_constraints pl)) (map fst (phys_reqd st)) /\
@@ -988,6 +1020,8 @@ Proof.
   unfold build.
   destruct (run t cm hist) as [st0 outs0] eqn:Er. cbn [fst snd].
   destruct (sys_go t cm (sys_reqs dclk drst) st0 []) as [e|[st sv]] eqn:Eg; intros H; inversion H; subst; clear H.
+  rewrite design_constraints_app, design_constraints_weave, design_constraints_res, <- port_constraints_app,
+    <- concat_app, <- map_app.
   split; [reflexivity|].
   destruct (sys_go_run t cm _ _ outs _ _ _ Eg) as (sv' & Hv & Hl & Hf). cbn in Hv. subst sv'.
   exists st, (outs ++ combine (sys_reqs dclk drst) (map Ok sv)).
